@@ -152,9 +152,43 @@ pub fn judge(ctx: &mut Ctx, cfg: &Cfg, m: &MSym, rng: &mut Rng, corpus: bool, re
             return;
         }
     }
-    // covers with <= 3 sheets: never {yes, no} across (S, C)
+    // the certificate cover is itself a finite cover of S: it must not be reported non-euclidean
+    if class == Class::Yes && (corpus || cfg.tier == crate::monitor::Tier::Thorough) {
+        if let Ok(Some(cov)) = observe(|| pseudo_toroidal_cover(&to_partial_dsym(m)).map(|c| from_dsym(&c))) {
+            if cov.is_valid_symbol() && cov.n <= 200 {
+                ctx.eval();
+                match verdict(&cov, false) {
+                    Ok((cc, cr)) => {
+                        ctx.count("certificate_covers_judged");
+                        if cc == Class::No {
+                            ctx.violation(
+                                "verdicts-contradict-along-a-finite-cover",
+                                "euclidicity::is_euclidean",
+                                json!({"symbol": m.to_text(), "cover": cov.to_text()}),
+                                json!({"symbol_verdict": reason, "cover_verdict": cr, "cover": "the pseudo-toroidal cover of the symbol itself"}),
+                                "if a symbol is reported euclidean no cover of it is reported non-euclidean",
+                            );
+                            return;
+                        }
+                    }
+                    Err(p) => {
+                        ctx.violation(&format!("panic@{}", p.short_loc()), "euclidicity::is_euclidean", json!({"symbol": cov.to_text()}), p.to_json(), "a verdict without panicking");
+                        return;
+                    }
+                }
+            }
+        }
+    }
+    // covers with <= 3 sheets (corpus symbols with <= 3 chambers: <= 6 sheets): never {yes, no} across (S, C)
     if with_covers && deep {
-        if let Ok(cs) = observe(|| rust_dsymbols::covers::covers(&to_partial_dsym(m), 3).iter().map(|c| from_dsym(c)).collect::<Vec<_>>()) {
+        let max_sheets = if !corpus {
+            3
+        } else {
+            // corpus: chambers of the cover bounded by 18 (thorough 32), 2..=6 (thorough 8) sheets
+            let (budget, cap) = (cfg.tier.pick(18, 32), cfg.tier.pick(6, 8));
+            (budget / m.n.max(1)).clamp(2, cap)
+        };
+        if let Ok(cs) = observe(|| rust_dsymbols::covers::covers(&to_partial_dsym(m), max_sheets).iter().map(|c| from_dsym(c)).collect::<Vec<_>>()) {
             for c in cs {
                 if c.n == m.n || !c.is_valid_symbol() || !c.is_connected() || c.covering_map_onto(m).is_none() || !gen::locally_spherical_3d(&c) {
                     continue;
@@ -203,7 +237,7 @@ pub fn run(cfg: &Cfg) -> Report {
     let corpus = gen::corpus();
     let ctx = par_items(cfg, &corpus, |ctx, k, m| {
         let mut rng = Rng::stream(seed, 0x17_8000 + k as u64);
-        judge(ctx, cfg, m, &mut rng, true, reps, m.n <= 3);
+        judge(ctx, cfg, m, &mut rng, true, reps, m.n <= cfg.tier.pick(9, 16));
         // renumberings and duals of corpus symbols are euclidean too
         for (name, v) in three_d::variants(cfg, m, &mut rng, cfg.tier.pick(3, 6)).into_iter().skip(1) {
             ctx.eval();
@@ -228,6 +262,7 @@ pub fn run(cfg: &Cfg) -> Report {
     report.require_counter("corpus_symbols", 19);
     report.require_counter("certificates_checked_with_subgroup_counts", 20);
     report.require_counter("cover_pairs_compared", 10);
+    report.require_counter("certificate_covers_judged", 10);
     report
 }
 
